@@ -57,6 +57,7 @@ op_kinds!(
     CloneHandle,
     DropHandle,
     SwitchHandle,
+    OtherFile,
 );
 
 #[derive(Clone, Copy, Debug, PartialEq, Eq)]
@@ -74,6 +75,10 @@ pub struct Case {
     /// iterate with `NewlineWithTrailingNewline` (forward only) instead of the plain iterator
     pub trailing: bool,
     pub ops: Vec<Op>,
+    /// other source files alive in the same process during this run (lazily indexed, queried by
+    /// `OtherFile` operations): whatever state the library shares between files is exercised
+    /// inside one run, so a failure that needs it replays from the run alone
+    pub others: Vec<String>,
 }
 
 // ------------------------------------------------------------------------------------------
@@ -109,6 +114,7 @@ counters!(
     op_CloneHandle,
     op_DropHandle,
     op_SwitchHandle,
+    op_OtherFile,
     fault_restart_aligned_midway,
     fault_restart_torn_inside_crlf,
     fault_restart_torn_other,
@@ -135,6 +141,7 @@ counters!(
     probe_range_end_near_u32_max,
     probe_lazy_index_first_touch,
     probe_index_cross_check,
+    probe_other_file_built,
     yielded_lines,
     runs_trailing_variant,
     runs_small_scope,
@@ -158,7 +165,10 @@ pub fn generate(seed: u64, config: u64, scale: u32) -> Case {
     // --- text
     let style = r.below(100);
     let mut text = String::new();
-    if style < 25 {
+    if r.chance(1, 4000) {
+        // rare size classes (very long line, very many lines, beyond 2^16 bytes, 2^k line lengths)
+        text = crate::c13a::gen_big_text_pub(&mut r);
+    } else if style < 25 {
         // dense small scope over the raw 6-symbol alphabet
         let n = r.below(6);
         for _ in 0..n {
@@ -202,7 +212,7 @@ pub fn generate(seed: u64, config: u64, scale: u32) -> Case {
     let trailing = r.chance(15, 100);
 
     // --- op mix for this run (swarm)
-    let mut w = [0u32; 19];
+    let mut w = [0u32; 20];
     let pickw = |r: &mut Rng, opts: &[u32]| *r.pick(opts);
     w[K::Next as usize] = pickw(&mut r, &[0, 2, 6, 10]);
     w[K::NextBack as usize] = pickw(&mut r, &[0, 2, 6, 10]);
@@ -217,6 +227,7 @@ pub fn generate(seed: u64, config: u64, scale: u32) -> Case {
     w[K::CloneHandle as usize] = pickw(&mut r, &[0, 1]);
     w[K::DropHandle as usize] = pickw(&mut r, &[0, 1]);
     w[K::SwitchHandle as usize] = pickw(&mut r, &[0, 1, 2]);
+    w[K::OtherFile as usize] = pickw(&mut r, &[0, 1, 2]);
     if faults {
         w[K::RestartAligned as usize] = pickw(&mut r, &[0, 1, 3]);
         w[K::RestartTornFront as usize] = pickw(&mut r, &[0, 1, 2]);
@@ -248,11 +259,27 @@ pub fn generate(seed: u64, config: u64, scale: u32) -> Case {
             c: r.next_u32(),
         });
     }
+    // other files of this run: mostly one-liners (a REPL line, an eval string), sometimes a text
+    // from the same generator
+    const ONE_LINERS: &[&str] = &["x = 1", "", "é", "\u{feff}a", "λ = 'ü'", "pass", "\u{feff}", "a😀b"];
+    let mut others = Vec::new();
+    for _ in 0..r.below(3) {
+        if r.chance(2, 3) {
+            others.push(r.pick::<&str>(ONE_LINERS).to_string());
+        } else {
+            let mut t = String::new();
+            for _ in 0..r.below(6) {
+                t.push_str(*r.pick::<&str>(SMALL_ALPHABET));
+            }
+            others.push(t);
+        }
+    }
     Case {
         text,
         base,
         trailing,
         ops,
+        others,
     }
 }
 
@@ -287,12 +314,16 @@ struct Exec<'t, 's> {
     last_yield_front: Option<MLine>,
     used_front: bool,
     used_back: bool,
+    /// the order in which the two ends were pulled (1 = front, 2 = back), base-3 packed
+    pulls: u64,
     // index handles
     handles: Vec<Handle>,
     cur: usize,
     lazy_untouched: bool,
     // range pool (model side; TextRanges are rebuilt from it at use time)
     pool: Vec<Iv>,
+    others: &'t [String],
+    other_files: Vec<Option<SourceFile>>,
     stats: &'s mut Stats,
     dg: Digest,
     rows: Vec<(usize, usize)>,
@@ -446,6 +477,7 @@ impl<'t, 's> Exec<'t, 's> {
         }
         .map_err(|p| (format!("panic:{}", panic_class(&p)), p))?;
         self.used_front = true;
+        self.pulls = self.pulls.wrapping_mul(3).wrapping_add(1);
         match (got, exp) {
             (None, None) => {
                 self.dg.word(u64::MAX);
@@ -485,6 +517,7 @@ impl<'t, 's> Exec<'t, 's> {
         let It::Plain(it) = &mut self.it else { unreachable!() };
         let got = guarded(|| it.next_back()).map_err(|p| (format!("panic:{}", panic_class(&p)), p))?;
         self.used_back = true;
+        self.pulls = self.pulls.wrapping_mul(3).wrapping_add(2);
         match (got, exp) {
             (None, None) => {
                 self.dg.word(u64::MAX - 1);
@@ -938,7 +971,52 @@ impl<'t, 's> Exec<'t, 's> {
                 self.cur = op.a as usize % self.handles.len();
                 Ok(())
             }
+            K::OtherFile => self.other_file(op),
         }
+    }
+
+    /// Query another lazily indexed file of this run against its own model.
+    fn other_file(&mut self, op: Op) -> Res {
+        if self.others.is_empty() {
+            return Ok(());
+        }
+        let i = op.a as usize % self.others.len();
+        let text: &str = &self.others[i];
+        if self.other_files[i].is_none() {
+            let name = format!("other{i}.py");
+            self.other_files[i] = Some(SourceFileBuilder::new(name, text).finish());
+            self.stats.bump(C::probe_other_file_built as usize);
+        }
+        let sf = self.other_files[i].as_ref().unwrap();
+        let bs = model::boundaries(text);
+        let o = bs[op.b as usize % bs.len()];
+        let rows = model::rows(text);
+        let r = op.c as usize % rows.len();
+        let want = model::row_col(text, o);
+        self.dg.word(o as u64);
+        let got = guarded(|| {
+            let sc = sf.to_source_code();
+            let one = OneIndexed::from_zero_indexed(r as u32);
+            let loc = sc.source_location(ts(o));
+            let range = sc.line_range(one);
+            (
+                (loc.row.get(), loc.column.get()),
+                sc.line_index(ts(o)).get(),
+                sc.line_count(),
+                (range.start().to_usize(), range.end().to_usize()),
+                sc.line_text(one).to_string(),
+                sc.text().len(),
+            )
+        })
+        .map_err(|p| (format!("panic:{}", panic_class(&p)), p))?;
+        let expect = (want, want.0, rows.len(), rows[r], text[rows[r].0..rows[r].1].to_string(), text.len());
+        if got != expect {
+            return Err((
+                "other-file".to_string(),
+                format!("file {i} {:?}: offset {o} row {}: got {:?}, model {:?}", text, r + 1, got, expect),
+            ));
+        }
+        Ok(())
     }
 
     fn query_offset(&mut self, op: Op) -> Res {
@@ -1172,9 +1250,17 @@ impl<'t, 's> Exec<'t, 's> {
                     bad.push(format!("{:?}.contains_inclusive({o}) = {ci}", t1));
                 }
                 // RangeBounds view agrees with contains
-                let rb = guarded(|| std::ops::RangeBounds::contains(&t1, &to)).map_err(pc)?;
-                if rb != r1.contains(o) {
-                    bad.push(format!("RangeBounds::contains({o}) = {rb}"));
+                let rb = guarded(|| {
+                    use std::ops::{Bound, RangeBounds};
+                    (
+                        RangeBounds::contains(&t1, &to),
+                        matches!(t1.start_bound(), Bound::Included(s) if s.to_u32() as u64 == r1.s),
+                        matches!(t1.end_bound(), Bound::Excluded(e) if e.to_u32() as u64 == r1.e),
+                    )
+                })
+                .map_err(pc)?;
+                if rb.0 != r1.contains(o) || !rb.1 || !rb.2 {
+                    bad.push(format!("RangeBounds view of {:?} at {o}: {:?}", t1, rb));
                 }
             }
             2 => {
@@ -1184,6 +1270,19 @@ impl<'t, 's> Exec<'t, 's> {
                     if got != want {
                         bad.push(format!("{:?}.contains_range({:?}) = {got}", t1, t2));
                     }
+                } else if r1.s <= r2.s && r2.s <= r1.e {
+                    // an empty range positioned within the receiver (end points included): the
+                    // set reading (the empty set is a subset of everything) and the positional
+                    // reading ("a range always contains itself") agree on true. An empty range
+                    // positioned outside is degenerate and not asserted.
+                    if !got {
+                        bad.push(format!("{:?}.contains_range({:?}) = false for an empty range inside the receiver", t1, t2));
+                    }
+                }
+                // a range always contains itself
+                let own = guarded(|| t1.contains_range(t1)).map_err(pc)?;
+                if !own {
+                    bad.push(format!("{:?} does not contain itself", t1));
                 }
             }
             3 => {
@@ -1229,6 +1328,16 @@ impl<'t, 's> Exec<'t, 's> {
                             bad.push(format!("cover {:?} does not contain {:?}", got, r));
                         }
                     }
+                    // never larger than the hull of both operands' positions
+                    if got.s < r1.s.min(r2.s) || got.e > r1.e.max(r2.e) {
+                        bad.push(format!("cover {:?} exceeds the hull of {:?} and {:?}", got, r1, r2));
+                    }
+                    // an empty operand positioned within the other one adds nothing
+                    for (a, b) in [(r1, r2), (r2, r1)] {
+                        if a.is_empty() && !b.is_empty() && b.s <= a.s && a.s <= b.e && got != b {
+                            bad.push(format!("cover of {:?} with the empty {:?} inside it = {:?}", b, a, got));
+                        }
+                    }
                 }
                 if bad.is_empty() {
                     self.push_pool(got);
@@ -1263,10 +1372,12 @@ impl<'t, 's> Exec<'t, 's> {
                         (g, _) => bad.push(format!("{:?}.checked_add({d}) = {:?}, fits = {fits}", t1, g)),
                     }
                 } else {
-                    let variant = sel / 7 % 3;
+                    let variant = sel / 7 % 5;
                     let got = guarded(|| match variant {
                         0 => t1 + td,
                         1 => &t1 + td,
+                        2 => t1 + &td,
+                        3 => &t1 + &td,
                         _ => {
                             let mut x = t1;
                             x += td;
@@ -1304,10 +1415,12 @@ impl<'t, 's> Exec<'t, 's> {
                         (g, _) => bad.push(format!("{:?}.checked_sub({d}) = {:?}, fits = {fits}", t1, g)),
                     }
                 } else {
-                    let variant = sel / 7 % 3;
+                    let variant = sel / 7 % 5;
                     let got = guarded(|| match variant {
                         0 => t1 - td,
                         1 => &t1 - td,
+                        2 => t1 - &td,
+                        3 => &t1 - &td,
                         _ => {
                             let mut x = t1;
                             x -= td;
@@ -1395,12 +1508,22 @@ impl<'t, 's> Exec<'t, 's> {
                     if text.is_char_boundary(s) && text.is_char_boundary(e) {
                         let got = guarded(|| {
                             let local = t1 - TextSize::new(self.base);
-                            let owned = text.to_string();
-                            (text[local].to_string(), owned[local].to_string())
+                            let mut owned = text.to_string();
+                            let by_index = (text[local].to_string(), owned[local].to_string());
+                            // IndexMut: upper-case exactly the selected slice
+                            owned[local].make_ascii_uppercase();
+                            let mut boxed: Box<str> = text.into();
+                            boxed[local].make_ascii_uppercase();
+                            (by_index.0, by_index.1, owned, boxed.to_string())
                         })
                         .map_err(pc)?;
+                        let mut want_upper = text.to_string();
+                        want_upper[s..e].make_ascii_uppercase();
                         if got.0 != text[s..e] || got.1 != text[s..e] {
                             bad.push(format!("str[{:?} - base] = {:?}", t1, got.0));
+                        }
+                        if got.2 != want_upper || got.3 != want_upper {
+                            bad.push(format!("IndexMut<TextRange> touched the wrong slice for {:?}", t1));
                         }
                     }
                 }
@@ -1446,10 +1569,10 @@ impl<'t, 's> Exec<'t, 's> {
             let g = guarded(|| {
                 let mut x = ta;
                 x += tb;
-                (ta + tb, &ta + tb, ta + &tb, x, [ta, tb].iter().sum::<TextSize>(), [ta, tb].into_iter().sum::<TextSize>())
+                (ta + tb, &ta + tb, ta + &tb, x, [ta, tb].iter().sum::<TextSize>(), [ta, tb].into_iter().sum::<TextSize>(), &ta + &tb, TextSize::from(a as u32) + TextSize::from(b as u32))
             })
             .map_err(pc)?;
-            if [g.0, g.1, g.2, g.3, g.4, g.5].iter().any(|x| x.to_u32() as u64 != s) {
+            if [g.0, g.1, g.2, g.3, g.4, g.5, g.6, g.7].iter().any(|x| x.to_u32() as u64 != s) {
                 bad.push(format!("TextSize {a} + {b} = {:?}", g));
             }
         }
@@ -1457,10 +1580,10 @@ impl<'t, 's> Exec<'t, 's> {
             let g = guarded(|| {
                 let mut x = ta;
                 x -= tb;
-                (ta - tb, &ta - tb, x)
+                (ta - tb, &ta - tb, x, ta - &tb, &ta - &tb)
             })
             .map_err(pc)?;
-            if [g.0, g.1, g.2].iter().any(|x| x.to_u32() as u64 != s) {
+            if [g.0, g.1, g.2, g.3, g.4].iter().any(|x| x.to_u32() as u64 != s) {
                 bad.push(format!("TextSize {a} - {b} = {:?}", g));
             }
         }
@@ -1557,6 +1680,9 @@ pub fn execute(case: &Case, stats: &mut Stats) -> Outcome {
     dg.str(text);
     dg.word(case.base as u64);
     dg.byte(case.trailing as u8);
+    for o in &case.others {
+        dg.str(o);
+    }
     if case.base as u64 + text.len() as u64 > u32::MAX as u64 {
         return Outcome {
             digest: dg.0,
@@ -1613,10 +1739,13 @@ pub fn execute(case: &Case, stats: &mut Stats) -> Outcome {
         last_yield_front: None,
         used_front: false,
         used_back: false,
+        pulls: 0,
         handles: vec![Handle::Index(ix), Handle::File(lazy, true), Handle::File(eager, false)],
         cur: 0,
         lazy_untouched: true,
         pool: Vec::new(),
+        others: &case.others,
+        other_files: case.others.iter().map(|_| None).collect(),
         stats,
         dg,
         rows,
@@ -1693,6 +1822,11 @@ pub fn execute(case: &Case, stats: &mut Stats) -> Outcome {
             _ => 0,
         };
         ex.stats.note_num("small_text_styles", id * 4 + style);
+        // distinct (text, order of front/back pulls) pairs: the interleavings actually explored
+        // on the dense small-scope texts
+        if ex.stats.num_sets.get("small_text_interleavings").map_or(0, |s| s.len()) < (1 << 20) {
+            ex.stats.note_num("small_text_interleavings", crate::rng::derive(id, &[ex.pulls]));
+        }
     }
     let digest = ex.dg.0;
     // distinct non-trivial cases: at least one line break or multi-byte char in the text and
@@ -1786,6 +1920,16 @@ pub fn shrink(case: &Case) -> Vec<Case> {
     if case.trailing {
         out.push(Case { trailing: false, ..case.clone() });
     }
+    for i in 0..case.others.len() {
+        let mut c = case.clone();
+        c.others.remove(i);
+        out.push(c);
+        for t in shrink_text_candidates(&case.others[i]) {
+            let mut c = case.clone();
+            c.others[i] = t;
+            out.push(c);
+        }
+    }
     // canonicalise operation arguments
     for (i, op) in case.ops.iter().enumerate() {
         for (a, b, c) in [(0, 0, 0), (op.a % 64, op.b % 64, op.c % 169), (op.a, 0, op.c), (0, op.b, op.c), (op.a, op.b, op.c % 13)] {
@@ -1832,6 +1976,8 @@ pub fn case_size(case: &Case) -> usize {
         + (case.base != 0) as usize * 300
         + (case.base > 1000) as usize * 64
         + case.trailing as usize * 200
+        + case.others.len() * 2000
+        + case.others.iter().map(|o| o.len() * 1000 + o.chars().filter(|c| !matches!(c, 'a' | '\n')).count() * 10).sum::<usize>()
         + case.text.chars().filter(|c| !matches!(c, 'a' | '\n')).count() * 10
 }
 
@@ -1840,6 +1986,7 @@ pub fn case_to_json(case: &Case) -> J {
         ("text", case.text.as_str().into()),
         ("base_offset", case.base.into()),
         ("trailing_variant", case.trailing.into()),
+        ("other_files", J::Arr(case.others.iter().map(|o| J::Str(o.clone())).collect())),
         (
             "ops",
             J::Arr(
@@ -1863,7 +2010,12 @@ pub fn case_from_json(j: &J) -> Result<Case, String> {
         let g = |i: usize| a.get(i).and_then(J::as_u64).unwrap_or(0) as u32;
         ops.push(Op { k, a: g(1), b: g(2), c: g(3) });
     }
-    Ok(Case { text, base, trailing, ops })
+    let others = j
+        .get("other_files")
+        .and_then(J::as_arr)
+        .map(|a| a.iter().filter_map(|x| x.as_str().map(str::to_string)).collect())
+        .unwrap_or_default();
+    Ok(Case { text, base, trailing, ops, others })
 }
 
 pub struct HistLayer;
@@ -1878,6 +2030,9 @@ impl Layer for HistLayer {
     }
     fn counter_names(&self) -> &'static [&'static str] {
         COUNTER_NAMES
+    }
+    fn chunk_runs(&self) -> u64 {
+        16384
     }
     fn required_probes(&self, config: u64) -> Vec<usize> {
         let mut v = vec![
@@ -1900,6 +2055,7 @@ impl Layer for HistLayer {
             C::probe_intersect_touching as usize,
             C::probe_lazy_index_first_touch as usize,
             C::probe_index_cross_check as usize,
+            C::probe_other_file_built as usize,
         ];
         if config == 1 {
             v.extend([
